@@ -214,6 +214,15 @@ def ecdsa_blob(curve='nistp256'):
     return sstr(b'ecdsa-sha2-' + c) + sstr(c) + sstr(b'\x04' + b'\x33' * (ECDSA_QLEN[curve] - 1))
 
 
+def sk_ed25519_blob(pk=b'\x13' * 32, application=b'ssh:'):
+    """FIDO/U2F-backed Ed25519 key (PROTOCOL.u2f): string type, string pk, string application"""
+    return sstr(b'sk-ssh-ed25519@openssh.com') + sstr(pk) + sstr(application)
+
+
+def sk_ecdsa_blob(application=b'ssh:'):
+    return sstr(b'sk-ecdsa-sha2-nistp256@openssh.com') + sstr(b'nistp256') + sstr(b'\x04' + b'\x33' * 64) + sstr(application)
+
+
 def dss_blob(pbits=1024):
     p = rsa_modulus(pbits)
     return sstr(b'ssh-dss') + mpint(p) + mpint(rsa_modulus(160)) + mpint(2) + mpint(rsa_modulus(pbits - 1))
@@ -236,6 +245,10 @@ def cert_blob(kind, host_bits, ca_blob, cert_type=2, host_n=None, fields=None):
     elif k.startswith(b'ecdsa-sha2-'):
         c = k[len(b'ecdsa-sha2-'):].split(b'-')[0]
         b += sstr(c) + sstr(b'\x04' + b'\x33' * (ECDSA_QLEN[c.decode()] - 1))
+    elif k.startswith(b'sk-ssh-ed25519'):
+        b += sstr(b'\x23' * 32) + sstr(b'ssh:')
+    elif k.startswith(b'sk-ecdsa-sha2-nistp256'):
+        b += sstr(b'nistp256') + sstr(b'\x04' + b'\x33' * 64) + sstr(b'ssh:')
     elif k.startswith(b'ssh-dss'):
         pb = host_bits or 1024
         b += mpint(rsa_modulus(pb)) + mpint(rsa_modulus(160)) + mpint(2) + mpint(rsa_modulus(pb - 1))
